@@ -3,6 +3,7 @@
 package main
 
 import (
+	"context"
 	"fmt"
 	"os"
 	"path/filepath"
@@ -265,6 +266,10 @@ type runner struct {
 	s       *sched.S
 	tasks   []*sched.Task
 	seenRet map[*sched.Task]bool
+	waiter  map[*sched.Task]string // tasks blocked in WaitClose / WaitClear ("close" / "clear")
+	cleared bool
+	ctx     context.Context
+	cancel  context.CancelFunc
 	quit    chan struct{}
 	hits    []corr.Hit
 	seen    map[string]bool
@@ -402,14 +407,34 @@ func suffix(rets []string, parked int) string {
 }
 
 // monitorQuiescent: the property on the observable state at a quiescent point of a list queue
-func (r *runner) monitorQuiescent(op string, parked int) {
-	if parked == 0 {
+func (r *runner) monitorQuiescent(op string, _ int) {
+	consumers, wclose, wclear := 0, 0, 0
+	for _, t := range r.tasks {
+		if d, _ := t.Done(); d {
+			continue
+		}
+		switch r.waiter[t] {
+		case "close":
+			wclose++
+		case "clear":
+			wclear++
+		default:
+			consumers++
+		}
+	}
+	if r.closed && wclose > 0 {
+		r.hit("Close", "WaitClose-not-released", fmt.Sprintf("after `%s`: the queue is closed and %d caller(s) are still blocked in WaitClose", op, wclose))
+	}
+	if r.cleared && wclear > 0 {
+		r.hit("TryClear", "WaitClear-not-released", fmt.Sprintf("after `%s`: the queue is cleared and %d caller(s) are still blocked in WaitClear", op, wclear))
+	}
+	if consumers == 0 {
 		return
 	}
 	if r.closed {
-		r.hit("Close", "blocked-consumer-not-released", fmt.Sprintf("after `%s`: the queue is closed and %d consumer(s) are still parked in Pop", op, parked))
+		r.hit("Close", "blocked-consumer-not-released", fmt.Sprintf("after `%s`: the queue is closed and %d consumer(s) are still parked in Pop", op, consumers))
 	} else if n := r.outstanding(); n > 0 {
-		r.hit("Pop", "consumer-parked-beside-item", fmt.Sprintf("after `%s`: %d consumer(s) parked in Pop while %d accepted item(s) have not been handed out", op, parked, n))
+		r.hit("Pop", "consumer-parked-beside-item", fmt.Sprintf("after `%s`: %d consumer(s) parked in Pop while %d accepted item(s) have not been handed out", op, consumers, n))
 	}
 }
 
@@ -589,8 +614,45 @@ func (r *runner) line(l string) string {
 			}
 		} else {
 			got = m.TryClear()
+			if got {
+				r.cleared = true
+			}
 		}
 		return finish(strconv.FormatBool(got))
+	case "waitclose", "waitclear":
+		if len(f) != 1 {
+			return "bad-op"
+		}
+		var call func(context.Context) error
+		switch q := r.lq.(type) {
+		case muxQ:
+			if f[0] == "waitclose" {
+				call = q.q.WaitClose
+			}
+		case mqQ:
+			call = q.q.WaitClose
+			if f[0] == "waitclear" {
+				call = q.q.WaitClear
+			}
+		}
+		if call == nil {
+			return "bad-op"
+		}
+		ctx := r.ctx
+		t := r.s.Go(f[0], func() string {
+			if err := call(ctx); err != nil {
+				return "err:" + err.Error()
+			}
+			return "ok"
+		})
+		r.tasks = append(r.tasks, t)
+		r.waiter[t] = strings.TrimPrefix(f[0], "wait")
+		rets, parked, ok := r.quiesce(t)
+		if !ok {
+			return "harness-error"
+		}
+		r.monitorQuiescent(l, parked)
+		return t.State() + suffix(rets, parked)
 	case "trypop":
 		if len(f) != 1 || !isSync {
 			return "bad-op"
@@ -707,11 +769,14 @@ func (r *runner) priLine(f []string, l string) string {
 }
 
 func runCase(c corr.Case) (res corr.Result) {
-	r := &runner{s: sched.New(), seen: map[string]bool{}, seenRet: map[*sched.Task]bool{}, accepted: map[int]int{}, handed: map[int]int{},
+	r := &runner{s: sched.New(), seen: map[string]bool{}, seenRet: map[*sched.Task]bool{}, waiter: map[*sched.Task]string{}, accepted: map[int]int{}, handed: map[int]int{},
 		quit: make(chan struct{})}
+	r.ctx, r.cancel = context.WithCancel(context.Background())
 	reset := func() {
 		r.cleanup()
 		r.tasks, r.seenRet, r.accepted, r.handed = nil, map[*sched.Task]bool{}, map[int]int{}, map[int]int{}
+		r.waiter, r.cleared = map[*sched.Task]string{}, false
+		r.ctx, r.cancel = context.WithCancel(context.Background())
 		r.closed, r.holders, r.dead, r.quit = false, 0, "", make(chan struct{})
 	}
 	defer func() {
@@ -749,6 +814,9 @@ func (r *runner) cleanup() {
 	}
 	if !pending {
 		return
+	}
+	if r.cancel != nil {
+		r.cancel() // WaitClose / WaitClear callers a defective Close left behind
 	}
 	if r.lq != nil {
 		r.lq.close()
@@ -801,6 +869,12 @@ func genList(r *rng.R, kind string, n int) corr.Case {
 			if kind == "mq" && r.Chance(1, 3) {
 				l = "tryclose"
 			}
+		case k < 6 && (kind == "mux" || kind == "mq") && consumers < 6:
+			l = "waitclose"
+			if kind == "mq" && r.Chance(1, 3) {
+				l = "waitclear"
+			}
+			consumers++
 		case k < 38 && consumers < 6:
 			l = "pop"
 			if kind != "syncq" && r.Chance(1, 3) {
@@ -923,7 +997,7 @@ func genPri(r *rng.R, n int) corr.Case {
 	return corr.Case{Tag: "sched-priq", Lines: lines}
 }
 
-var junk = []string{"atomic", "atomic add 1 ;", "atomic pop", "atomic ; close", "atomic add 1 ; trypop", "atomic close ; close", "add", "add x", "pop 1", "popany x", "close now", "foo", "push 1", "push 1 x", "recv 1", "consume now", "waitlen 2",
+var junk = []string{"waitclose", "waitclear", "waitclose 1", "atomic", "atomic add 1 ;", "atomic pop", "atomic ; close", "atomic add 1 ; trypop", "atomic close ; close", "add", "add x", "pop 1", "popany x", "close now", "foo", "push 1", "push 1 x", "recv 1", "consume now", "waitlen 2",
 	"trypop", "tryclose", "tryclear", "addc 1", "priorc 2", "push 3 1", "popany", "prior 4", "recv", "consume", "waitlen", "len"}
 
 func genMalformed(r *rng.R) corr.Case {
@@ -954,6 +1028,10 @@ func fixedCases() []corr.Case {
 		mk("fixed", "new mux 2", "popany", "popany", "close", "add 1"),
 		mk("fixed", "new mq 1 1", "pop", "popany", "pop", "addc 1", "add 2", "tryclose", "priorc 3", "tryclose", "tryclear", "pop"),
 		mk("fixed", "new mq 0 0", "pop", "pop", "tryclose", "tryclear"),
+		// callers blocked in WaitClose / WaitClear are released by Close / TryClose / TryClear too
+		mk("fixed", "new mux 0", "waitclose", "pop", "waitclose", "close", "waitclose"),
+		mk("fixed", "new mq 0 0", "waitclose", "waitclear", "pop", "add 1", "tryclose", "pop", "tryclose", "waitclear", "tryclear", "waitclear", "waitclose"),
+		mk("fixed", "new mq 1 1", "waitclear", "waitclose", "atomic add 1 ; close", "tryclear", "popany", "tryclear"),
 		// the window between a wake-up and the woken consumer's re-acquisition of the lock: the next producer event
 		// arrives while a consumer is woken but has not resumed
 		mk("window", "new syncq", "pop", "pop", "atomic add 1 ; close"),
@@ -981,7 +1059,9 @@ func enumerate() []corr.Case {
 		}
 		alpha := []string{"pop", "popany", "add", "prior", "close"}
 		if kind == "mq" {
-			alpha = []string{"pop", "popany", "add", "addc", "close"}
+			alpha = []string{"pop", "popany", "add", "addc", "close", "waitclose"}
+		} else if kind == "mux" {
+			alpha = []string{"pop", "popany", "add", "prior", "close", "waitclose"}
 		} else if kind == "syncq" {
 			alpha = []string{"pop", "add", "close", "trypop"}
 		}
@@ -995,7 +1075,7 @@ func enumerate() []corr.Case {
 			}
 			for _, a := range alpha {
 				switch a {
-				case "pop", "popany":
+				case "pop", "popany", "waitclose":
 					if consumers < 3 {
 						rec(append(lines, a), consumers+1, items, closes)
 					}
